@@ -272,14 +272,27 @@ fn decision_cases<X: Sx>(ctx: &Ctx, r: &mut impl RngCore, l: usize, m: usize) ->
     let dm: Vec<Bytes> = di.iter().map(|&i| msgs[i].clone()).collect();
     let dci: Vec<usize> = (0..m).filter(|_| r.next_u32() % 2 == 0).collect();
     let dcm: Vec<Bytes> = dci.iter().map(|&j| cm[j].clone()).collect();
-    // library-made artefacts
-    let lsig = Sig::<X>::sign(Some(&msgs), &lsk, &lpk, header.as_deref()).unwrap().to_bytes().to_vec();
-    let lproof = Pok::<X>::proof_gen(&lpk, &lsig, header.as_deref(), ph.as_deref(), Some(&msgs), Some(&di)).unwrap().to_bytes();
-    let (lcom, lbf) = Com::<X>::commit(Some(&cm)).unwrap();
+    // library-made artefacts: the inputs are honest and the reference produces each of them (below), so a refusal of
+    // the library is a decision that differs from the reference's
+    let shape = format!("L{l}M{m}/D={:?}/C={:?}", di, dci);
+    macro_rules! lib_gen {
+        ($op:expr, $e:expr) => {
+            match ctx.call(concat!("generate/", $op), &shape, None, || $e).value {
+                Some(x) => x,
+                None => {
+                    ctx.violation(concat!("C10:library-refuses/reference-accepts/", $op), json!({"shape":shape,"suite":name::<X>()}));
+                    return v;
+                }
+            }
+        };
+    }
+    let lsig = lib_gen!("sign", Sig::<X>::sign(Some(&msgs), &lsk, &lpk, header.as_deref())).to_bytes().to_vec();
+    let lproof = lib_gen!("proof_gen", Pok::<X>::proof_gen(&lpk, &lsig, header.as_deref(), ph.as_deref(), Some(&msgs), Some(&di))).to_bytes();
+    let (lcom, lbf) = lib_gen!("commit", Com::<X>::commit(Some(&cm)));
     let lcwp = lcom.to_bytes();
     let lblind = rf::octets_to_scalar(&lbf.to_bytes()).unwrap();
-    let lbsig = BSig::<X>::blind_sign(&lsk, &lpk, Some(&lcwp), header.as_deref(), Some(&msgs)).unwrap().to_bytes().to_vec();
-    let lbproof = Pok::<X>::blind_proof_gen(&lpk, &lbsig, header.as_deref(), ph.as_deref(), Some(&msgs), Some(&cm), Some(&di), Some(&dci), Some(&lbf)).unwrap().to_bytes();
+    let lbsig = lib_gen!("blind_sign", BSig::<X>::blind_sign(&lsk, &lpk, Some(&lcwp), header.as_deref(), Some(&msgs))).to_bytes().to_vec();
+    let lbproof = lib_gen!("blind_proof_gen", Pok::<X>::blind_proof_gen(&lpk, &lbsig, header.as_deref(), ph.as_deref(), Some(&msgs), Some(&cm), Some(&di), Some(&dci), Some(&lbf))).to_bytes();
     // reference-made artefacts (own randomness)
     let rsig = rf::sign(s, &sk, &w, &hb, &msgs).unwrap().to_vec();
     let rnd: Vec<Scalar> = (0..5 + l - di.len()).map(|_| crate::c04::rand_scalar(r)).collect();
@@ -678,7 +691,7 @@ pub fn scenarios(ctx: &Ctx) -> Vec<Scenario> {
             v.push(scenario(format!("det/shake/part{part}"), move |c| single::<Shake>(c, i + 5, part)));
         }
     }
-    let lm: &[(usize, usize)] = ctx.t(&[(0, 0), (1, 1), (3, 2), (5, 0), (2, 4)][..], &[(0, 0), (1, 0), (0, 1), (1, 1), (3, 2), (5, 0), (2, 4), (8, 3), (16, 5), (33, 1)][..]);
+    let lm: &[(usize, usize)] = ctx.t(&[(0, 0), (1, 1), (3, 2), (5, 0), (2, 4), (0, 3), (1, 6)][..], &[(0, 0), (1, 0), (0, 1), (1, 1), (3, 2), (5, 0), (2, 4), (8, 3), (16, 5), (33, 1)][..]);
     for rep in 0..ctx.t(1u64, 4u64) {
         for (k, &(l, m)) in lm.iter().enumerate() {
             let i = 100 + rep * 20 + k as u64;
